@@ -314,9 +314,6 @@ impl<'p> World<'p> {
 									&& self.reload_is_stale(ep)
 									&& self.pays[ix].epoch < ep
 									&& first_chan.map(|c| self.pending_in_channel(nodes, &c, &h) > 0).unwrap_or(false);
-								if std::env::var("H_TRACE").is_ok() {
-									eprintln!("TRACE pathfailed first_after_reload {} stale {} epoch {} first_chan {:?} scid {:?} known {:?}", self.first_after_reload, self.reload_is_stale(ep), self.pays[ix].epoch, first_chan, path.hops.first().map(|h| h.short_channel_id), self.scids);
-								}
 								let p = &mut self.pays[ix];
 								p.resolutions.push((step, ep));
 								if live_in_monitor {
